@@ -9,6 +9,8 @@ import traceback
 
 VERIF = os.path.dirname(os.path.dirname(os.path.abspath(__file__)))
 REPO = os.environ.get("VERIF_REPO", "/repo")
+#: development only (seed evaluation in a scratch tree): where evidence/ and replays/ go; registered commands never set it
+OUT = os.environ.get("VERIF_OUT") or os.path.dirname(os.path.dirname(os.path.abspath(__file__)))
 
 DISCHARGED, VIOLATION, INCONCLUSIVE, ERROR = "discharged", "violation", "inconclusive", "harness_error"
 
@@ -150,8 +152,8 @@ def load_known(prop):
 
 # ---------------------------------------------------------------- replay
 def do_replay(prop, n, res):
-    os.makedirs(os.path.join(VERIF, "replays"), exist_ok=True)
-    path = os.path.join(VERIF, "replays", "%s-%d.json" % (prop, n))
+    os.makedirs(os.path.join(OUT, "replays"), exist_ok=True)
+    path = os.path.join(OUT, "replays", "%s-%d.json" % (prop, n))
     with open(path, "w") as f:
         json.dump({"property": prop, "name": res.get("name"), "finding_key": res.get("finding_key"),
                    "detail": res.get("detail"), "replay": res["replay"]}, f, indent=1, default=str)
@@ -254,8 +256,8 @@ def finish(prop, tier, seed, level, results, *, functions, bounds, stubs, assump
     ev = {"property_id": prop, "tier": tier, "seed": seed, "level": level, "coverage": cov,
           "assumptions": assumptions, "wall_s": round(time.time() - t0, 2), "violations": new_viol,
           "technique": technique}
-    os.makedirs(os.path.join(VERIF, "evidence"), exist_ok=True)
-    with open(os.path.join(VERIF, "evidence", "%s.json" % prop), "w") as f:
+    os.makedirs(os.path.join(OUT, "evidence"), exist_ok=True)
+    with open(os.path.join(OUT, "evidence", "%s.json" % prop), "w") as f:
         json.dump(ev, f, indent=1, default=str)
     for ln in lines:
         print(ln)
